@@ -550,7 +550,23 @@ func runHistory(c *vf.Ctx, caseNo int, dir string) (h histOut) {
 		noteLeader()
 		names := cl.Names()
 		ld := cl.Leader()
-		switch r.IntN(9) {
+		switch r.IntN(12) {
+		case 9: // slow applies: entries stay committed-but-unapplied for a while
+			d := time.Duration(5+r.IntN(50)) * time.Millisecond
+			fault(fmt.Sprintf("hook-sleep:fsm.apply.entry:%s", d), func() { vexport.HookSetDelay("fsm.apply.entry", d) })
+		case 10, 11: // hand-over under lag: the leader's messages are delayed, then it steps down
+			if ld != nil {
+				d := time.Duration(60+r.IntN(160)) * time.Millisecond
+				fault(fmt.Sprintf("handover-under-lag:%s:%s", ld.Name, d), func() {
+					for _, o := range names {
+						if o != ld.Name {
+							cl.Net.SetDelay(ld.Name, o, d)
+						}
+					}
+					time.Sleep(time.Duration(100+r.IntN(300)) * time.Millisecond)
+					go ld.Store.Stepdown(false, "")
+				})
+			}
 		case 0: // isolate leader
 			if ld != nil {
 				fault("isolate-leader:"+ld.Name, func() { cl.Net.Isolate(ld.Name, names) })
@@ -575,7 +591,7 @@ func runHistory(c *vf.Ctx, caseNo int, dir string) (h histOut) {
 				}
 			}
 		case 3, 4: // heal
-			fault("heal", func() { cl.Net.HealAll() })
+			fault("heal", func() { cl.Net.HealAll(); vexport.HookSetDelay("fsm.apply.entry", 0) })
 		case 5: // stepdown
 			if ld != nil {
 				fault("stepdown:"+ld.Name, func() { go ld.Store.Stepdown(false, "") })
@@ -605,6 +621,7 @@ func runHistory(c *vf.Ctx, caseNo int, dir string) (h histOut) {
 	cl.Net.HealAll()
 	vexport.HookSetDelay("linread.after_commit_index", 0)
 	vexport.HookSetDelay("linread.after_verify_leader", 0)
+	vexport.HookSetDelay("fsm.apply.entry", 0)
 	h.Faults = append(h.Faults, "final-heal")
 	noteLeader()
 	// final strong read per key, as ordinary history ops
